@@ -1096,6 +1096,8 @@ class Ctx:
             return out
         if not isinstance(base, SymReal) and not isinstance(exp, SymReal):
             return base ** exp
+        if is_concrete_number(base) and base == 1:
+            return 1.0
         r = self.fresh_real("pow")
         if isinstance(base, SymReal) and bool(base <= 0):
             raise Unsupported("power with non-positive symbolic base")
